@@ -25,19 +25,19 @@ package cache
 // Representation invariant: every buffered trace is stored under its own ID and queued with its deadline.
 //@ spec synced(d *DefaultInMemCache) bool := forall k string :: in(d.cache, k) ==> d.cache[k] != nil && d.cache[k].TraceID == k && pqHas(d.pq, k) && pqVal(d.pq, k) == d.cache[k].SendBy
 
-//@ contract collect/cache.(*DefaultInMemCache).Get props C03 function
+//@ contract collect/cache.(*DefaultInMemCache).Get props C03,C01,C02 function
 //@   requires d != nil
 //@   ensures result == ite(in(d.cache, traceID), d.cache[traceID], nil)
 //@   modifies nothing
 
-//@ contract collect/cache.(*DefaultInMemCache).Set props C03
+//@ contract collect/cache.(*DefaultInMemCache).Set props C03,C01,C02
 //@   requires d != nil && d.pq != nil && synced(d)
 //@   ensures[stored-under-its-id] trace != nil ==> d.cache == mapset(old(d.cache), trace.TraceID, trace)
 //@   ensures[nil-is-ignored] trace == nil ==> d.cache == old(d.cache)
 //@   ensures[queued-with-its-deadline] synced(d)
 //@   modifies d.cache, pqHas(d.pq), pqVal(d.pq)
 
-//@ contract collect/cache.(*DefaultInMemCache).TakeExpiredTraces props C03 localcalls
+//@ contract collect/cache.(*DefaultInMemCache).TakeExpiredTraces props C03,C01,C02 localcalls
 //@   arith math
 //@   requires d != nil && d.pq != nil && synced(d)
 //@   requires[no-filter] filter == nil
@@ -57,7 +57,7 @@ package cache
 //@   loop 1 exits[complete-unless-max] (max <= 0 || len(expired) < max) ==> (forall k string :: in(d.cache, k) ==> now.Before(d.cache[k].SendBy))
 //@   modifies d.cache, pqHas(d.pq), pqVal(d.pq)
 
-//@ contract collect/cache.(*DefaultInMemCache).RemoveTraces props C03,C07
+//@ contract collect/cache.(*DefaultInMemCache).RemoveTraces props C03,C07,C01,C02
 //@   requires d != nil && d.pq != nil && synced(d)
 //@   ensures[removed] forall k string :: in(d.cache, k) == (in(old(d.cache), k) && !in(toDelete, k))
 //@   ensures[others-stay] forall k string :: in(d.cache, k) ==> d.cache[k] == old(d.cache)[k]
